@@ -186,6 +186,31 @@ Proof.
   - inversion H; subst. exists [], id, e, ms, t. cbn. auto.
 Qed.
 
+Lemma ready_not_err_state : forall e w e' r l,
+  poll_ready e w = (e', r, l) -> is_rerr r = false -> e' = advance e.
+Proof.
+  induction e as [id rs beh|id beh|a IHa b IHb|m a IHa|m a IHa|wf a IHa|k a IHa];
+    intros w e' r l H Hr; cbn [poll_ready] in H; cbn [advance].
+  - destruct rs; inversion H; reflexivity.
+  - inversion H; reflexivity.
+  - destruct (poll_ready a w) as [[a' ra] la] eqn:Ea.
+    destruct ra as [| |x];
+      [| |inversion H; subst; discriminate];
+      destruct (poll_ready b w) as [[b' rb] lb] eqn:Eb;
+      destruct rb; inversion H; subst; try discriminate;
+      now rewrite (IHa _ _ _ _ Ea eq_refl), (IHb _ _ _ _ Eb eq_refl).
+  - destruct (poll_ready a w) as [[a' ra] la] eqn:Ea. inversion H; subst.
+    now rewrite (IHa _ _ _ _ Ea Hr).
+  - destruct (poll_ready a w) as [[a' ra] la] eqn:Ea.
+    destruct (map_rerr m ra) as [r' lm] eqn:Em. inversion H; subst.
+    assert (is_rerr ra = false) by (destruct ra; cbn in Em; inversion Em; subst; auto).
+    now rewrite (IHa _ _ _ _ Ea H0).
+  - destruct (poll_ready a w) as [[a' ra] la] eqn:Ea. inversion H; subst.
+    now rewrite (IHa _ _ _ _ Ea Hr).
+  - destruct (poll_ready a w) as [[a' ra] la] eqn:Ea. inversion H; subst.
+    now rewrite (IHa _ _ _ _ Ea Hr).
+Qed.
+
 (* ------------------------------------------------------------------------------------------ *)
 (* Futures: liveness invariant                                                                 *)
 (* ------------------------------------------------------------------------------------------ *)
